@@ -115,6 +115,8 @@ func init() {
 			u = append(u, c01Units(C01Arg{DFSArg: DFSArg{Kind: "eventlog", Writers: 2, Depth: d + 3, Alpha: "one", SD: 3}}, 16)...)
 			u = append(u, c01Units(C01Arg{DFSArg: DFSArg{Kind: "eventlog", Writers: 2, Depth: d, Alpha: "one"}, Observer: true, Routes: []string{"sync", "direct"}, Reload: true, Snapshot: true}, 16)...)
 			u = append(u, c01Units(C01Arg{DFSArg: DFSArg{Kind: "keyvalue", Writers: 3, Depth: d - 1, Alpha: "tiny"}, Reload: true}, 16)...)
+			// storage faults: local writes whose head-list write fails (the entry may stay in the log unacknowledged)
+			u = append(u, c01Units(C01Arg{DFSArg: DFSArg{Kind: "eventlog", Writers: 2, Depth: d, Alpha: "one"}, FaultWrite: true}, 8)...)
 			// status updates from load-added, per-entry progress and local writes in every order
 			gb := 2
 			if tier == "thorough" {
